@@ -1,6 +1,6 @@
 (* C18/Props.v — statements only (proofs are in Proofs.v / Proofs_queue.v). *)
 From Coq Require Import List String ZArith.
-From Exo Require Import Base.Store Base.Util C18.Model C18.Proofs C18.Proofs_mod C18.Proofs_dg C18.Proofs_de.
+From Exo Require Import Base.Store Base.Util C18.Model C18.Proofs C18.Proofs_mod C18.Proofs_dg C18.Proofs_de C18.Proofs_op.
 Import ListNotations.
 Local Open Scope string_scope.
 
@@ -135,12 +135,14 @@ Theorem C18_dogfood_unrepaired_refuted :
 Proof. exact dogfood_unrepaired_refuted. Qed.
 Print Assumptions C18_dogfood_unrepaired_refuted.
 
-(* exported between a key replacement and the epoch end: the validator set is re-imported under the
-   operator's new key *)
-Theorem C18_dogfood_valset_refuted : exists c valmap (s s' : mstore), sorted s /\
+(* The exporter as found asked the operator module for each stored validator and exported the operator's
+   CURRENT key ([valmap] not the identity): exported between a key replacement and the epoch end, the validator
+   set was re-imported under the new key.  The repaired exporter exports the validators as stored ([valmap] =
+   identity, which is what [dg_wf] requires and what the harness now observes at every height). *)
+Theorem C18_dogfood_valset_unrepaired_refuted : exists c valmap (s s' : mstore), sorted s /\
   dg_init c (dg_export valmap s) = Ok s' /\ nonvolatile "dogfood" s' <> nonvolatile "dogfood" s.
 Proof. exact dogfood_valset_refuted. Qed.
-Print Assumptions C18_dogfood_valset_refuted.
+Print Assumptions C18_dogfood_valset_unrepaired_refuted.
 
 (* ===== delegation ===== *)
 (* the three keys under which an imported record is stored are those the keeper uses when the record is
@@ -190,16 +192,51 @@ Proof. exact delegation_panics_past. Qed.
 Print Assumptions C18_delegation_import_panics_on_past_record.
 
 (* ===== operator ===== *)
+(* WHAT SURVIVES, for EVERY sorted operator store whose infos carry a commission time: the (repaired) import of the
+   exported document does not panic; every entry under 01 (infos) 02 (opted) 03 04 (USD values) 05 (slash info)
+   07 (keys) 08 (previous keys) 0b (key removals) is reproduced exactly and nothing is added there; nothing exists
+   under any other prefix than 09 / 0a - so 06 (slash-assets state) is lost - and 09 / 0a hold what was recomputed
+   from the keys. *)
+Theorem C18_operator_survivors : forall c consaddr (s : mstore), sorted s -> op_info_ok s = true ->
+  exists s', op_init c consaddr (op_export s) = Ok s' /\ sorted s' /\
+    (forall k, covered_key op_survivors k = true -> sget s' k = sget s k) /\
+    (forall k, sget s' k <> None -> covered_key op_survivors k = true \/ has_prefix "09" k = true \/ has_prefix "0a" k = true).
+Proof. exact operator_survivors. Qed.
+Print Assumptions C18_operator_survivors.
+
+(* EXACT ROUND TRIP on the states [op_wf]: only known prefixes and no 06; the reverse lookups 09 / 0a are exactly
+   those of the current keys (07) and of the previous keys still recorded (08) *)
+Theorem C18_roundtrip_operator : forall c consaddr (s : mstore), sorted s -> op_wf consaddr s = true ->
+  op_init c consaddr (op_export s) = Ok s.
+Proof. exact operator_roundtrip. Qed.
+Print Assumptions C18_roundtrip_operator.
+
+Theorem C18_idempotent_operator : forall c consaddr (s s' : mstore), sorted s -> op_wf consaddr s = true ->
+  op_init c consaddr (op_export s) = Ok s' -> op_export s' = op_export s.
+Proof. exact operator_idempotent. Qed.
+Print Assumptions C18_idempotent_operator.
+
+Example C18_operator_example_wf : sortedb ex_operator_wf = true /\ op_wf ex_consaddr ex_operator_wf = true.
+Proof. vm_compute. split; reflexivity. Qed.
+
+(* not every reachable state is [op_wf]: the lookup of a replaced key outlives its 08 record (it stays, slashable,
+   until dogfood prunes it epochs later) and the document has no place for it *)
 Definition C18_roundtrip_operator_full : Prop := forall c consaddr (s : mstore), sorted s ->
   op_init c consaddr (op_export s) = Ok s.
-(* witness: an operator registered before the import time with a replaced key that still awaits pruning:
-   the commission time is reset and the old key's reverse lookup is lost *)
 Theorem C18_roundtrip_operator_refuted : ~ C18_roundtrip_operator_full.
 Proof. exact roundtrip_operator_refuted. Qed.
 Print Assumptions C18_roundtrip_operator_refuted.
 
-Theorem C18_operator_second_export_differs_refuted : exists c consaddr (s s' : mstore), sorted s /\
-  op_init c consaddr (op_export s) = Ok s' /\ op_export s' <> op_export s.
-Proof. exact operator_idem_refuted. Qed.
-Print Assumptions C18_operator_second_export_differs_refuted.
+(* the importer as found (regressions of the two repairs) *)
+Theorem C18_operator_commission_unrepaired_refuted : exists c consaddr (s s' : mstore), sorted s /\
+  op_init_unrepaired c consaddr (op_export s) = Ok s' /\ op_export s' <> op_export s /\
+  sget s' ("01" ++ ex_opaddr) = Some (VInfo "#info" (cx_time c)).
+Proof. exact operator_commission_unrepaired_refuted. Qed.
+Print Assumptions C18_operator_commission_unrepaired_refuted.
 
+Theorem C18_operator_prevkey_unrepaired_refuted :
+  exists s', op_init_unrepaired ex_ctx ex_consaddr (op_export ex_operator_wf) = Ok s' /\
+  sget s' ("0a" ++ ex_chain ++ "9a010f35bd7270626f934fb382364232a4f0c5e1") = None /\
+  op_init ex_ctx ex_consaddr (op_export ex_operator_wf) = Ok ex_operator_wf.
+Proof. exact operator_prevkey_unrepaired_refuted. Qed.
+Print Assumptions C18_operator_prevkey_unrepaired_refuted.
